@@ -17,7 +17,7 @@ LEVEL_NOTE = "Trusted: the reference model in this file (a dozen lines). Numeric
 RULE = ("case = AgentDef arguments + probes (+ create_agents index spec); non-trivial = specific routes and hosting "
         "costs both non-empty, or a mass creation of >=2 agents with non-default arguments; distinct by sha1(case)")
 ASSUMPTIONS = []
-BUDGET = {"quick": {"workers": 4, "examples": 800, "seconds": 30},
+BUDGET = {"quick": {"workers": 8, "examples": 2000, "seconds": 30},
           "thorough": {"workers": 16, "examples": 8000, "seconds": 300}}
 
 AGENTS = ["a1", "a2", "a10", "b", "a_1"]
